@@ -183,6 +183,49 @@ def direct_cases(rng):
     import numpy as _np
     for nm_, f_ in (("array * TT", lambda xv=xv: _np.array([1.0, 2.0]) * xv), ("array + TT", lambda xv=xv: _np.array([1.0, 2.0]) + xv), ("array - TT", lambda xv=xv: _np.array([1.0, 2.0]) - xv)):
         add(nm_, "a numpy array with several elements on the left", False, f_)
+    # operands that are exactly zero (zeros(...), 0 * x, a zero operator): a shortcut for them must not come before the shape guards
+    zx = lambda N_: torchtt.zeros(N_, dtype=torch.float64)
+    zA = TM(rng, [3, 4], [3, 4]) * 0.0
+    add("amen_mv", "zero vector with a mode-size mismatch", False, lambda Aop=Aop: torchtt.amen_mv(Aop, zx([3, 5]), nswp=2))
+    add("amen_mv", "zero vector with more modes", False, lambda Aop=Aop: torchtt.amen_mv(Aop, zx([3, 4, 2]), nswp=2))
+    add("amen_mv", "zero operator, vector with a mode-size mismatch", False, lambda zA=zA: torchtt.amen_mv(zA, T(rng, [3, 5]), nswp=2))
+    add("amen_mv", "0 * x with a mode-size mismatch", False, lambda Aop=Aop: torchtt.amen_mv(Aop, T(rng, [5, 4]) * 0.0, nswp=2))
+    add("amen_mm", "zero second operator with an inner mode-size mismatch", False, lambda Aop=Aop: torchtt.amen_mm(Aop, torchtt.zeros([(3, 2), (5, 3)], dtype=torch.float64), nswp=2))
+    add("amen_mm", "zero first operator, inner mode-size mismatch", False, lambda zA=zA: torchtt.amen_mm(zA, TM(rng, [3, 5], [2, 3]), nswp=2))
+    add("fast_matvec", "zero vector with a mode-size mismatch", False, lambda Aop=Aop: Aop.fast_matvec(zx([3, 5]), use_cpp=False))
+    add("dmrg_hadamard", "zero operand with a mode-size mismatch", False, lambda xv=xv: torchtt.dmrg_hadamard(xv, zx([3, 5]), nswp=2))
+    add("TTM @ TT", "zero vector with a mode-size mismatch", True, lambda Aop=Aop: Aop @ zx([3, 5]))
+    add("dot", "zero operand with a mode-size mismatch", True, lambda xv=xv: torchtt.dot(xv, zx([3, 5])))
+    add("TT * TT", "zero operand with a mode-size mismatch", True, lambda xv=xv: xv * zx([3, 5]))
+    add("TT + TT", "zero operand with a mode-size mismatch", True, lambda xv=xv: xv + zx([5, 4]))
+    add("elementwise_divide", "zero dividend with a mode-size mismatch", False, lambda xv=xv: torchtt.elementwise_divide(zx([3, 5]), xv + 3.0, nswp=2))
+    # a shape list read off an existing object (a.N, A.M, A.N) and edited by the caller before it is used to build the other operand: the edit must
+    # not reach the object it was read from, and the incompatible call must still be rejected
+    def edited(lst, k_, v_):
+        lst[k_] = v_; return lst
+    a3 = T(rng, [3, 4, 2]); A3 = TM(rng, [3, 4, 2], [3, 4, 2])
+    add("dot", "second operand built from an edited copy of a.N", True, lambda a3=a3: torchtt.dot(a3, T(rng, edited(a3.N, 1, 1))))
+    add("dot", "first operand built from an edited copy of a.N", True, lambda a3=a3: torchtt.dot(T(rng, edited(a3.N, 1, 1)), a3))
+    add("TTM @ TT", "vector built from an edited copy of A.N", True, lambda A3=A3: A3 @ T(rng, edited(A3.N, 1, 1)))
+    add("amen_mv", "vector built from an edited copy of A.N", False, lambda A3=A3: torchtt.amen_mv(A3, T(rng, edited(A3.N, 1, 1)), nswp=2))
+    add("fast_matvec", "vector built from an edited copy of A.N", False, lambda A3=A3: A3.fast_matvec(T(rng, edited(A3.N, 1, 1)), use_cpp=False))
+    add("bilinear_form", "right vector built from an edited copy of A.N", False, lambda A3=A3, a3=a3: torchtt.bilinear_form(a3, A3, T(rng, edited(A3.N, 2, 1))))
+    add("TT @ TTM", "vector built from an edited copy of A.M", True, lambda A3=A3: T(rng, edited(A3.M, 0, 1)) @ A3)
+    add("dmrg_hadamard", "operand built from an edited copy of a.N", False, lambda a3=a3: torchtt.dmrg_hadamard(a3, T(rng, edited(a3.N, 2, 5)), nswp=2))     # (a size-1 mode would be the broadcast product, as for `*`)
+    # rank lists of the wrong length, argument tensors of different shapes, lists of unequal length, repeated axes, a single index for a one-mode operator,
+    # a direction of another shape for the manifold projection: no valid dense counterpart, yet nothing in the contraction itself objects
+    add("randn", "rank list longer than the shape", False, lambda: torchtt.randn([3, 4], [1, 2, 1, 5, 1]))
+    add("randn", "rank list shorter than the shape", False, lambda: torchtt.randn([3, 4, 2], [1, 2, 1]))
+    add("function_interpolate", "argument tensors of different shapes", False, lambda x3=x3: torchtt.interpolate.function_interpolate(lambda a: a[:, 0] + a[:, 1], [x3, T(rng, [3, 4, 5])], eps=1e-6))
+    add("function_interpolate", "argument tensors of different order", False, lambda x3=x3, xv=xv: torchtt.interpolate.function_interpolate(lambda a: a[:, 0] + a[:, 1], [x3, xv], eps=1e-6))
+    add("mprod", "more modes than factor matrices", True, lambda x3=x3: x3.mprod([torch.ones(2, 3, dtype=torch.float64)], [0, 2]))
+    add("mprod", "more factor matrices than modes", True, lambda x3=x3: x3.mprod([torch.ones(2, 3, dtype=torch.float64), torch.ones(2, 2, dtype=torch.float64)], [0]))
+    add("dot(axis)", "an axis named twice", False, lambda x3=x3: torchtt.dot(x3, T(rng, [3, 2]), [0, 0, 2]))
+    add("TTM[...]", "a single integer for a one-mode operator", False, lambda: TM(rng, [3], [4])[2])
+    add("TTM[...]", "a single slice for a one-mode operator", False, lambda: TM(rng, [3], [4])[1:3])
+    add("riemannian_projection", "direction with a size-1 mode", False, lambda x3=x3: torchtt.manifold.riemannian_projection(x3, T(rng, [3, 1, 2])))
+    add("riemannian_projection", "direction with more modes", False, lambda xv=xv, x3=x3: torchtt.manifold.riemannian_projection(xv, x3))
+    add("riemannian_projection", "direction with a mode-size mismatch", False, lambda x3=x3: torchtt.manifold.riemannian_projection(x3, T(rng, [3, 5, 2])))
     # to_qtt of operators: every mode must be square, not only the totals
     for shp in ([(2, 4), (4, 2)], [(1, 4), (4, 1)], [(4, 2), (2, 2), (2, 4)], [(2, 4), (2, 2)], [(2, 8)]):
         add("to_qtt", "operator with a non-square mode %s" % (shp,), True, lambda shp=shp: torchtt.ones(shp, dtype=torch.float64).to_qtt())
